@@ -10,6 +10,7 @@ OBLIGATIONS = [
     ob('C16.coalesce.concat', SC + 'c16_coalesce_concat', 'COALESCE (first non-empty), CONCAT, CONCAT_WS arms - 5 witnesses', units=['scalar'], complete=False, bound=B),
     ob('C16.replace.trim', SC + 'c16_replace_trim', 'REPLACE (all occurrences; missing arguments -> empty value, no panic), TRIM / LTRIM / RTRIM arms - 6 witnesses', units=['scalar'], complete=False, bound=B),
 ]
+OBLIGATIONS.append(ob('C16.compose', 'verif_frag::evalshim::c16_scalar_dispatch', 'get_function_value, scalar branch: F(G(x), a, b) applies F to the value of G(x) and to the values of a and b, each evaluated once, in order', units=['evalshim'], complete=False, bound='1 concrete call with 3 arguments'))
 CANARIES = [dict(harness=SC + 'canary_scalar_must_fail', units=['scalar'])]
 ASSUMPTIONS = ['std string routines (chars, skip, take, replace, trim, join, parse) executed from their real source by CBMC on the witnesses']
 NOT_COVERED = ['all argument values other than the witnesses', 'LOWER/UPPER/INITCAP (Unicode tables), base64, numeric formatting (format!), date functions (chrono)', 'composition through get_function_value', 'POWER/LOG/FORMAT_TIME ill-typed arguments (format!/float formatting in the same arms)']
